@@ -141,7 +141,7 @@ class Models:
         """uninterpreted Real->Real function applied to x with per-term axioms"""
         ctx = it.ctx
         f = ctx.uf(name, REAL, REAL)
-        xs = ctx.__dict__.setdefault("uf_args", {}).setdefault(name, [])
+        xs = ctx.__dict__.setdefault("uf_args", {}).setdefault(name, [z3.RealVal(1)] if name == "log" else [])
         xz = to_real(x)
         t = f(xz)
         if axioms is not None:
@@ -617,6 +617,8 @@ class Models:
         def log_ax(ctx, f, x, t, others):
             ctx.fact(f(z3.RealVal(1)) == 0, key="log1")
             ctx.fact(z3.Implies(x >= 1, t >= 0), key=("log-pos", x.sexpr()))
+            # 1 - 1/x <= log x <= x - 1 for x > 0
+            ctx.fact(z3.Implies(x > 0, z3.And(t <= x - 1, t * x >= x - 1)), key=("log-bounds", x.sexpr()))
             for o in others:
                 if not o.eq(x):
                     ctx.fact(z3.And(z3.Implies(z3.And(o > 0, o <= x), f(o) <= t),
@@ -627,7 +629,7 @@ class Models:
 
         def np_log(self, it, args, kw, fr, node):
             v = it.run.num(args[0])
-            self.note(it, "axiom:log (log 1 = 0, strictly monotone on positives)")
+            self.note(it, "axiom:log (log 1 = 0, strictly monotone on positives, 1 - 1/x <= log x <= x - 1)")
             if isinstance(v, SArr1):
                 return SArr1(self.real_uf1(it, "log", v.val, log_ax), v.ndim)
             return self.real_uf1(it, "log", v, log_ax)
